@@ -169,6 +169,15 @@ def case_write_read(ctx, nlist):
     F.add("/d/t.meta", True, len(txt), [{"pos": 0, "text": txt}])
     m1 = spikeglx.read_meta_data(FakePath("/d/t.meta"))
     ctx.oblige("tilde_removed_from_key", "snsShankMap" in m1 and "~snsShankMap" not in m1)
+    # tilde keys carrying plain numbers: parse -> write -> parse gives an equal dictionary (the writer drops the tilde)
+    txt2 = "~nShankSel=4\n~userList=1,2,3\n~snsShankMap=(1,2,480)(0:0:0:1)\nimDatPrb_type=0\ntypeThis=imec\n"
+    F.add("/d/t2.meta", True, len(txt2), [{"pos": 0, "text": txt2}])
+    a1 = spikeglx.read_meta_data(FakePath("/d/t2.meta"))
+    ctx.call("write_meta_data_again", spikeglx.write_meta_data, a1, FakePath("/d/t3.meta"))
+    a2 = ctx.call("read_meta_data_again", spikeglx.read_meta_data, FakePath("/d/t3.meta"))
+    for k in ("nShankSel", "userList", "snsShankMap"):
+        same = k in a1 and k in a2 and type(a1[k]) is type(a2[k]) and (a1[k] == a2[k] if not isinstance(a1[k], list) else (len(a1[k]) == len(a2[k]) and all(bool(core.eq(x, y)) for x, y in zip(a1[k], a2[k]))))
+        ctx.oblige("tilde_key_round_trips_to_an_equal_value", bool(same) if not isinstance(same, core.Sym) else same, detail={"key": k, "first": repr(a1.get(k)), "second": repr(a2.get(k))})
 
 
 def cases(tier):
@@ -289,6 +298,10 @@ bad = [k for k, v in d.items() if k not in back or (back[k] != v and not (isinst
 if set(back) - set(d) - {{'neuropixelVersion', 'serial'}}: bad.append('extra keys')
 (p.parent / 't.meta').write_text('~snsShankMap=(1,2,480)(0:0:0:1)\\nimDatPrb_type=0\\ntypeThis=imec\\n')
 if 'snsShankMap' not in spikeglx.read_meta_data(p.parent / 't.meta'): bad.append('tilde')
+(p.parent / 't2.meta').write_text('~nShankSel=4\\n~userList=1,2,3\\n~snsShankMap=(1,2,480)(0:0:0:1)\\nimDatPrb_type=0\\ntypeThis=imec\\n')
+a1 = spikeglx.read_meta_data(p.parent / 't2.meta'); spikeglx.write_meta_data(a1, p.parent / 't3.meta'); a2 = spikeglx.read_meta_data(p.parent / 't3.meta')
+for k in ('nShankSel', 'userList', 'snsShankMap'):
+    if k not in a1 or k not in a2 or type(a1[k]) is not type(a2[k]) or a1[k] != a2[k]: bad.append(('tilde key does not round-trip', k, a1.get(k), a2.get(k)))
 if bad: reproduced(str(bad))
 not_reproduced()
 """
